@@ -344,13 +344,100 @@ func stripTemps(s string) string {
 	return s
 }
 
+// symbolsOf lists the declared constants occurring in a term.
+func (vc *VC) symbolsOf(t string, out map[string]bool) {
+	start := -1
+	for i := 0; i <= len(t); i++ {
+		var c byte = ' '
+		if i < len(t) {
+			c = t[i]
+		}
+		if c == ' ' || c == '(' || c == ')' {
+			if start >= 0 {
+				tok := t[start:i]
+				if _, ok := vc.declared[tok]; ok {
+					out[tok] = true
+				}
+				start = -1
+			}
+		} else if start < 0 {
+			start = i
+		}
+	}
+}
+
+// relevant selects the assumptions in the cone of influence of the goal: definitions of
+// symbols that are reached, and other assumptions that share a symbol with what is reached.
+// Dropping assumptions can only make a goal harder to prove, never wrongly provable.
+func (vc *VC) relevant(o *Obl) []bool {
+	n := o.NAss
+	if vc.assSyms == nil {
+		vc.assSyms = map[int]map[string]bool{}
+		vc.assDef = map[int]string{}
+	}
+	for i := 0; i < n; i++ {
+		if _, ok := vc.assSyms[i]; ok {
+			continue
+		}
+		a := vc.asserts[i]
+		m := map[string]bool{}
+		vc.symbolsOf(a, m)
+		vc.assSyms[i] = m
+		if strings.HasPrefix(a, "(= ") {
+			rest := a[3:]
+			if j := strings.IndexByte(rest, ' '); j > 0 {
+				if _, ok := vc.declared[rest[:j]]; ok {
+					vc.assDef[i] = rest[:j]
+				}
+			}
+		}
+	}
+	R := map[string]bool{}
+	vc.symbolsOf(o.Guard.S, R)
+	vc.symbolsOf(o.Goal.S, R)
+	inc := make([]bool, n)
+	for changed := true; changed; {
+		changed = false
+		for i := 0; i < n; i++ {
+			if inc[i] {
+				continue
+			}
+			syms := vc.assSyms[i]
+			if d, isDef := vc.assDef[i]; isDef {
+				if !R[d] {
+					continue
+				}
+			} else {
+				if len(syms) == 0 {
+					inc[i] = true
+					continue
+				}
+				hit := false
+				for s := range syms {
+					if R[s] {
+						hit = true
+						break
+					}
+				}
+				if !hit {
+					continue
+				}
+			}
+			inc[i] = true
+			changed = true
+			for s := range syms {
+				R[s] = true
+			}
+		}
+	}
+	return inc
+}
+
 // script renders the SMT-LIB script of an obligation.
 func (vc *VC) script(o *Obl, seed int) string {
 	var sb strings.Builder
 	sb.WriteString(smtPrelude)
-	if seed != 0 {
-		fmt.Fprintf(&sb, "(set-option :random-seed %d)\n", seed%1000000)
-	}
+	_ = seed // the proof search is deterministic; the seed is not passed to the solvers
 	for _, d := range vc.S.decls {
 		sb.WriteString(d)
 		sb.WriteByte('\n')
@@ -359,7 +446,11 @@ func (vc *VC) script(o *Obl, seed int) string {
 		sb.WriteString(d)
 		sb.WriteByte('\n')
 	}
-	for _, a := range vc.asserts[:o.NAss] {
+	inc := vc.relevant(o)
+	for i, a := range vc.asserts[:o.NAss] {
+		if !inc[i] {
+			continue
+		}
 		sb.WriteString("(assert ")
 		sb.WriteString(a)
 		sb.WriteString(")\n")
